@@ -78,6 +78,7 @@ type gate struct {
 	mu       sync.Mutex
 	expected int
 	arrived  int
+	last     time.Time // the latest arrival
 	allIn    chan struct{}
 	turn     chan struct{}
 	cur      *SessObs
@@ -98,14 +99,30 @@ func newGate(expected int) *gate {
 func (g *gate) onHash(ks []fk.Key) {
 	g.mu.Lock()
 	g.arrived++
+	g.last = time.Now()
 	if g.arrived == g.expected {
 		close(g.allIn)
 	}
 	g.mu.Unlock()
-	select {
-	case <-g.allIn:
-	case <-time.After(20 * time.Second):
-		panic("C19 runner: not all batch goroutines reached ProposalsHash")
+	// all expected goroutines arrive within milliseconds; an executor that starts another number of them
+	// than the real proposalBatches on a separate object says (none of the repository's does) is let
+	// through once nobody has arrived for 2 s: it is judged by the sessions it starts like any other
+	for waiting := true; waiting; {
+		select {
+		case <-g.allIn:
+			waiting = false
+		case <-time.After(100 * time.Millisecond):
+			g.mu.Lock()
+			if time.Since(g.last) > 2*time.Second {
+				select {
+				case <-g.allIn:
+				default:
+					g.note += "gate: not all batch goroutines reached ProposalsHash; "
+					close(g.allIn)
+				}
+			}
+			g.mu.Unlock()
+		}
 	}
 	select {
 	case <-g.turn:
@@ -187,13 +204,7 @@ func sortMembers(ms [][]uint64) {
 }
 
 func execute(ex *evmexec.Executor, ps []*proposal.Proposal) {
-	done := make(chan error, 1)
-	go func() { done <- ex.Execute(ps) }()
-	select {
-	case <-done:
-	case <-time.After(120 * time.Second):
-		panic("C19 runner: Executor.Execute did not return")
-	}
+	runWithin("Executor.Execute", func() error { return ex.Execute(ps) })
 }
 
 func runSess(c Case) Obs {
